@@ -28,6 +28,24 @@ func aggStream(r *rng, maxN int) []record {
 	return rs
 }
 
+// records for merge-fields: several numeric columns whose names share substrings
+func mergeStream(r *rng) []record {
+	n := 1 + r.intn(5)
+	vals := []string{"1", "2", "3", "-4", "10", "0x10", "2.5", "0.5", "", "abc", "7", "7", "3.0", "100"}
+	var rs []record
+	for i := 0; i < n; i++ {
+		var rec record
+		for _, k := range []string{"a_in_x", "a_out_x", "b_in_y", "b_out_x", "c", "a_in_z"} {
+			if r.chance(1, 5) {
+				continue
+			}
+			rec = append(rec, field{k, r.pick(vals)})
+		}
+		rs = append(rs, rec)
+	}
+	return rs
+}
+
 func genC10(r *rng, thorough bool) {
 	n := 120
 	if thorough {
@@ -69,7 +87,7 @@ func genC10(r *rng, thorough bool) {
 		used := map[string]bool{}
 		for j := 0; j < k; j++ {
 			a := r.pick(accs)
-			if used[a] { // a repeated name makes the same accumulator ingest every value twice
+			if used[a] && !r.chance(1, 3) { // repeated names are legal (and must not double-count)
 				continue
 			}
 			used[a] = true
@@ -81,7 +99,22 @@ func genC10(r *rng, thorough bool) {
 		emit([]string{"stats1", "-a", al, "-f", "x,y"}, rs)
 		emit([]string{"stats1", "-a", al, "-f", "x", "-g", g}, rs)
 		emit([]string{"stats1", "-a", "count,sum,min,max", "-f", "y,x", "-g", g}, rs)
+		emit([]string{"stats1", "-a", al, "-f", r.pick([]string{"x,x", "x,y,x", "y,y"}), "-g", g}, rs)
+		// merge-fields: per-record accumulation over several fields
+		ms := mergeStream(r)
+		keep := r.chance(1, 3)
+		mf := func(args ...string) {
+			argv := append([]string{"merge-fields", "-a", al}, args...)
+			if keep {
+				argv = append(argv, "-k")
+			}
+			emit(argv, ms)
+		}
+		mf("-f", r.pick([]string{"a_in_x,a_out_x", "a_in_x,b_in_y,nosuch", "a_in_x,a_in_x,b_out_x"}), "-o", "out")
+		mf("-r", r.pick([]string{"in_,out_", "^a_", "_x$", "[ab]_in", "\"IN_\"i"}), "-o", "bar")
+		mf("-c", r.pick([]string{"in_,out_", "_in,_out", "^a_,^b_", "_x$,_y$", "a"}))
 		emit([]string{"step", "-a", "delta,shift,rsum,counter", "-f", "x"}, rs)
+		emit([]string{"step", "-a", "counter,counter,rsum", "-f", "x,x"}, rs)
 		emit([]string{"step", "-a", "shift_lag,delta", "-f", "x,y", "-g", g}, rs)
 		emit([]string{"step", "-a", "rsum", "-f", "y", "-g", g}, rs)
 	}
